@@ -203,7 +203,9 @@ func definitelyNotNil(v ssa.Value) bool {
 	if call, ok := v.(*ssa.Call); ok {
 		switch CalleeRef(&call.Call) {
 		case "fmt.Errorf", "errors.New", "github.com/pkg/errors.New", "github.com/pkg/errors.Errorf",
-			"google.golang.org/grpc/status.New", "google.golang.org/grpc/status.Newf":
+			"google.golang.org/grpc/status.New", "google.golang.org/grpc/status.Newf",
+			"google.golang.org/grpc/status.Error", "google.golang.org/grpc/status.Errorf":
+			// (status.Error with codes.OK answers nil; the module never builds an OK status as an error)
 			return true
 		}
 	}
@@ -218,8 +220,39 @@ func definitelyNotNil(v ssa.Value) bool {
 		return true
 	case *ssa.Const:
 		return x.Value != nil
+	case *ssa.Phi:
+		// `if err != nil { if err == ErrTimeout { err = status.Error(…) }; return nil, err }`: the merge of an error that is
+		// known to be non-nil on the edge it arrives over with a freshly built one is non-nil
+		return phiNotNil(x, 0)
 	}
 	return false
+}
+
+func phiNotNil(ph *ssa.Phi, depth int) bool {
+	if depth > 3 || len(ph.Edges) == 0 {
+		return false
+	}
+	for i, e := range ph.Edges {
+		if inner, isPhi := e.(*ssa.Phi); isPhi {
+			if inner == ph || !phiNotNil(inner, depth+1) {
+				return false
+			}
+			continue
+		}
+		if definitelyNotNil(e) {
+			continue
+		}
+		known := false
+		for _, a := range chainAtoms(ph.Block().Preds[i], ph.Block(), 0) {
+			if a.nilOf == e && !a.isNil {
+				known = true
+			}
+		}
+		if !known {
+			return false
+		}
+	}
+	return true
 }
 
 // impliedWays explains how the boolean value c can have the value pol: a list of alternatives ("ways"), each a conjunction of
@@ -557,6 +590,43 @@ func selectorsOf(fn *ssa.Function) map[Edge]selector {
 				phi = ph
 			}
 			if phi == nil {
+				// a plain condition that is tested twice (`flag := ok && a > b; if flag { return }; if ok { … }`): the second
+				// test cannot come out differently from what the way into the merge block behind the first one established.
+				// Take the nearest block with several predecessors that dominates this test and whose ways in say something
+				// about the same condition; the edge can be crossed only after entering that block a way that agrees.
+				var def *ssa.BasicBlock
+				if ci, isI := c.(ssa.Instruction); isI {
+					def = ci.Block()
+				}
+				for d := b.Idom(); d != nil; d = d.Idom() {
+					if len(d.Preds) < 2 || (def != nil && !def.Dominates(d)) {
+						continue
+					}
+					allowed := map[int]bool{}
+					says := false
+					for i, pr := range d.Preds {
+						chain := chainAtoms(pr, d, 1)
+						mentions := false
+						for _, a := range chain {
+							if (a.v != nil && a.v == self.v) || (a.nilOf != nil && a.nilOf == self.nilOf) {
+								mentions = true
+							}
+						}
+						if mentions {
+							says = true
+						}
+						if consistent(append(append([]atom{}, chain...), self)) {
+							allowed[i] = true
+						}
+					}
+					if says && len(allowed) < len(d.Preds) {
+						m[Edge{b, k}] = selector{d, allowed}
+						break
+					}
+					if says {
+						break
+					}
+				}
 				continue
 			}
 			allowed := map[int]bool{}
